@@ -1,4 +1,5 @@
 SPECIFICATION Spec
 INVARIANT Inv_Vector
 INVARIANT Inv_Params
+INVARIANT Inv_GGH
 CHECK_DEADLOCK FALSE
